@@ -7,10 +7,17 @@ import PsutilModel.Model.C18
 import PsutilModel.Spec.C18
 namespace Psutil.C18
 
+/-- a native range check, if present, must let every class 0..3 with data 0..7 through -/
+def nativeRangeOk : Option (Int × Int × Int × Int) → Bool
+  | none => true
+  | some (a, b, x, y) => decide (a ≤ 0 ∧ 3 ≤ b ∧ x ≤ 0 ∧ 7 ≤ y)
+
 /-- the configuration under which the full statements hold (what the translator must find) -/
 structure Cfg.Good (c : Cfg) : Prop where
   shift : c.shift = 13
   macros : c.macrosCanonical = true
+  /-- a native range check, if present, lets every class 0..3 with data 0..7 through -/
+  native : nativeRangeOk c.nativeRange = true
   dflt : c.defaultLevel = 0
   lo : c.levelMin = 0
   hi : c.levelMax = 7
@@ -21,6 +28,19 @@ structure Cfg.Good (c : Cfg) : Prop where
   pid0 : c.pid0Refused = true
   empty : c.emptyAsksAll = some 1024
   sorted : c.getSortedSet = true
+
+theorem inNativeRange {c : Cfg} (hg : c.Good) {cls data : Int} (h1 : 0 ≤ cls ∧ cls ≤ 3)
+    (h2 : 0 ≤ data ∧ data ≤ 7) : outOfNativeRange c.nativeRange cls data = false := by
+  unfold outOfNativeRange
+  cases hr : c.nativeRange with
+  | none => rfl
+  | some r =>
+    obtain ⟨a, b, x, y⟩ := r
+    have := hg.native
+    rw [hr] at this
+    simp only [nativeRangeOk, decide_eq_true_eq] at this
+    simp only [decide_eq_false_iff_not]
+    omega
 
 /-! ### ioprio packing -/
 
